@@ -30,9 +30,9 @@ func init() {
 				}
 			}
 			return []Batch{
-				{Mode: "fail-pos", Count: 1500 * 16, Exhaustive: true, Group: 16},
-				{Mode: "trunc-pos", Count: 600 * 80, Exhaustive: true, Group: 80},
-				{Mode: "seeded", Count: 30000},
+				{Mode: "fail-pos", Count: 5000 * 16, Exhaustive: true, Group: 16},
+				{Mode: "trunc-pos", Count: 2000 * 80, Exhaustive: true, Group: 80},
+				{Mode: "seeded", Count: 100000},
 			}
 		},
 		Run:  runPacketSM,
